@@ -144,6 +144,27 @@ pub fn run(ctx: &Ctx) -> Result<(), String> {
         }
     }
 
+    // part 1b: bursts that exceed what one event-loop call handles, spread over W workers, all queued
+    // before the first step (a worker descheduled under a burst), mixed protocols
+    {
+        let plans: Vec<(usize, u8, usize)> = ctx.tier.pick(vec![(2, 1, 40), (2, 2, 70), (3, 1, 60)], vec![(2, 1, 40), (2, 2, 70), (3, 1, 60), (2, 3, 120), (4, 1, 90), (2, 64, 300)]); // (W, batch_size, K)
+        par_for(plans.len(), 1, |j, _| {
+            let (w, bs, k) = plans[j];
+            let reqs: Vec<Version> = (0..k).map(|i| if i % 3 == 0 { Version::Ietf13 } else { Version::Classic }).collect();
+            let evs: Vec<MEv> = (0..k).map(|i| MEv::Deliver(i % w)).collect();
+            hist_n.fetch_add(1, Relaxed);
+            transitions.fetch_add(k as u64 + 4 * w as u64, Relaxed);
+            match multi_history(w, &reqs, &evs, bs) {
+                Err(e) => *failed.lock().unwrap() = Some(e),
+                Ok(None) => {}
+                Ok(Some((clause, msg))) => ctx.violation(&clause, "multi-worker", "in-process-burst", json!({"kind":"multi","workers":w,"requests":k,"batch_size":bs,"events":evs.iter().map(|e| format!("{:?}", e)).collect::<Vec<_>>(),"message":msg})),
+            }
+        });
+        if let Some(e) = failed.lock().unwrap().take() {
+            return Err(e);
+        }
+    }
+
     // part 2: controlled schedules of the real process
     let mut sched = SchedSummary::default();
     {
@@ -248,7 +269,7 @@ pub fn run(ctx: &Ctx) -> Result<(), String> {
     ctx.cov("caps_hit", json!(sched.caps_hit));
     ctx.cov("exhaustive", json!(sched.caps_hit.is_empty()));
     ctx.cov("bound", json!({"in_process": ctx.tier.pick("W=2,K=3,depth 6", "W=2,K=4,depth 8; W=3,K=3,depth 6"), "controlled": ctx.tier.pick("N=2,K=2, preemption bound 2, distributions up to worker symmetry", "N in {2,3}, K in {2,3}, every distribution up to worker symmetry, preemption bound 3/2/2/1, 90 s wall cap per scenario")}));
-    ctx.cov("rule", json!("(1) in-process: W real Server objects from one seed; all event sequences of the depth bound over {deliver(next request -> worker w), step(w)} (the harness plays the kernel's distribution), completed to quiescence: exactly one reply per request, from the worker it was delivered to, authentic for that request under the single long-term key, per-responder delegated keys stable and distinct. (2) the real server process under the controlled scheduler: K requests whose source ports are chosen through the learned port->worker map to realise each distribution; schedules over the hook points (loop_top, polled, collected, sent, flag_check of each worker, environment sends) explored with iterative preemption bounding; same oracle plus no thread exit/panic and every worker back at loop_top. (3) sampled: free-running binary with 64 concurrent closed-loop reference clients (quick: 15 rounds, num_workers {4,16}; thorough: 60 rounds, {1,2,4,8,16}); a failure observed there is a real failing execution, its absence is not a proof."));
+    ctx.cov("rule", json!("(1) in-process: W real Server objects from one seed; all event sequences of the depth bound over {deliver(next request -> worker w), step(w)} (the harness plays the kernel's distribution), completed to quiescence: exactly one reply per request, from the worker it was delivered to, authentic for that request under the single long-term key, per-responder delegated keys stable and distinct; plus bursts larger than one event-loop call handles (e.g. 20 requests per worker at batch_size 1) spread over the workers and queued before the first step. (2) the real server process under the controlled scheduler: K requests whose source ports are chosen through the learned port->worker map to realise each distribution; schedules over the hook points (loop_top, polled, collected, sent, flag_check of each worker, environment sends) explored with iterative preemption bounding; same oracle plus no thread exit/panic and every worker back at loop_top. (3) sampled: free-running binary with 64 concurrent closed-loop reference clients (quick: 15 rounds, num_workers {4,16}; thorough: 60 rounds, {1,2,4,8,16}); a failure observed there is a real failing execution, its absence is not a proof."));
     ctx.sample(json!({"kind":"multi","workers":2,"events":["Deliver(0)","Deliver(1)","Step(1)","Deliver(0)","Step(0)"]}));
     ctx.sample(json!({"kind":"schedule","scenario":"load-n2-k2-dist[0, 1]","schedule":["env:send(c3,C)","worker-0@loop_top(0)","env:send(c0,I)","worker-1@loop_top(0)","worker-0@polled(1)"]}));
     ctx.assume("interleavings are explored at hook granularity; all cross-thread communication of the server goes through hooked operations or kernel sockets (static audit: no static mut / unsafe / shared Mutex besides the config lock, the KEEP_RUNNING flag and the stats queue)");
